@@ -172,7 +172,7 @@ CLAIMED.update({
 CLAIMED.update({
     "C22": ("Relational: _block_singletons on inputs (symbolic coordinates) and re-phased copies gives identical blocks, "
             "spans, counts and block membership; blocks are the two leaf edges of one individual covering the mutation; "
-            "phased individuals are never blocked; infer+rescale prefix on two input phasings uses identical counts.",
+            "phased individuals are never blocked; infer+rescale prefix on two input phasings uses identical counts, also when one fitted phase is undefined (NaN).",
             "EP's block updates depend on the input only through block_likelihoods/block_nodes; fitted phases not NaN.",
             TECH + "; relational (two-input) execution", "4/C22"),
     "C23": ("infer (flip/placement) + rescale prefix + reallocate_unphased with symbolic phases in [0,1] on 4 layouts (incl. a leaf edge shared by two blocks) x both "
